@@ -16,7 +16,7 @@ func init() {
 		decided: "R1 in basicauth the next handler runs only for OPTIONS, for unprotected paths, or after the flag that is set solely behind all three credential checks; every rule is consulted (the rule loop has no early exit) and the protected flag is raised without any credential condition; internal returns 404 for every configured prefix before anything runs; " +
 			"R2 Path.Matches compares operands that were both path.Clean'ed on every data path and, in the case-insensitive branch, both lower-cased; " +
 			"R3 in the fixed directive list every handler that can rewrite the request path before calling Next comes before basicauth, and basicauth and internal come before every handler that can produce content from the site or a backend; " +
-			"R4 every file the file server or browse opens under a path *derived* from the request path (index page, precompressed sibling, archive member) is enumerated; these are design-level known findings, a new one is a violation. Since round 4: R1/R2 are decided as tables: BasicAuth.ServeHTTP for one and two rules x resource match x exclusion x credentials, Internal.ServeHTTP for up to three prefixes, Path.Matches on concrete spellings (dot segments, repeated slashes, letter case). R5 basicauth's parser stores no exclusion wider and no resource narrower than written. R6 internal puts its paths on the site's hide list and the file handlers hide-test every derived open.",
+			"R4 every file the file server or browse opens under a path *derived* from the request path (index page, precompressed sibling, archive member) is enumerated; these are design-level known findings, a new one is a violation. Since round 4: R1/R2 are decided as tables: BasicAuth.ServeHTTP for one and two rules x resource match x exclusion x credentials, Internal.ServeHTTP for up to three prefixes, Path.Matches on concrete spellings (dot segments, repeated slashes, letter case). R5 basicauth's parser stores no exclusion wider and no resource narrower than written. R6 internal puts its paths on the site's hide list and the file handlers hide-test every derived open. Since round 7: R7 rewrite.To leaves a rooted request path for ten target spellings; R2 knows that a path ending in a dot segment names the directory.",
 		notDecided: "credential strength and timing; third-party auth directives; what backends themselves reveal; content equality with valid credentials.",
 	})
 }
